@@ -16,7 +16,7 @@ theorem FCore.setState {win c} {s : St} (h : FCore win s c) (st : UState) : FCor
   ⟨h.nofault, h.grow, h.cepLen, h.cur, h.fbLen, h.outIdx, h.cnt, h.room, h.feats, h.moved⟩
 
 theorem MfcInv.setState {c} {s : St} (h : MfcInv s c) (st : UState) : MfcInv { s with state := st } c :=
-  ⟨h.len, h.alloc, h.out, h.cnt, h.next, h.frames⟩
+  ⟨h.len, h.out, h.cnt, h.next, h.frames⟩
 
 theorem FCore.qinv {win c} {s : St} (h : FCore win s c) : QInv s :=
   ⟨h.nofault, h.fbLen, h.outIdx, by have := h.cnt; have := h.room; omega⟩
@@ -57,7 +57,7 @@ theorem Open.core {win} {s : St} (h : Open win s) : ∃ c, FCore win s c ∧ Mfc
 
 /-- `acmod_process_raw` on an open utterance -/
 theorem processRaw_open (win : Nat) (skip : Nat → Bool) (s : St) (rs : List FeResp) (h : Open win s)
-    (hb : s.cmnFrames + offered rs ≤ cmnWinHwm) (hw : nMfc + 2 * win + 1 ≤ livebuf) :
+    (hb : s.cmnFrames + offered rs ≤ cmnWinHwm) (hw : 3 * win + 1 ≤ livebuf) :
     let r := processRaw true win skip s rs
     Open win r.st ∧ r.st.cmnFrames + offered r.rest ≤ s.cmnFrames + offered rs ∧
       (r.rest.length < rs.length ∨ (rs = [] ∧ r.more = false)) := by
@@ -110,14 +110,14 @@ theorem search_open (win : Nat) (s : St) (h : Open win s) :
     exact ⟨hc'.nofault, hc'.grow, hc'.cepLen, hc'.cur, hc'.fbLen, by simp only []; rw [hc'.outIdx],
       by have := hc'.cnt; simp only []; omega, hc'.room, hc'.feats, hc'.moved⟩
   have hmfc : ∀ c', MfcInv s c' → MfcInv (searchForward s) c' := by
-    intro c' hm; rw [e]; exact ⟨hm.len, hm.alloc, hm.out, hm.cnt, hm.next, hm.frames⟩
+    intro c' hm; rw [e]; exact ⟨hm.len, hm.out, hm.cnt, hm.next, hm.frames⟩
   refine ⟨⟨by rw [e]; exact h.mfc0, ?_, hsrch, halgn⟩, by rw [e]⟩
   rcases h.inv with hs | ⟨c1, hp⟩
   · exact Or.inl ⟨hcore 0 hs.core, by rw [e]; exact hs.st, hmfc 0 hs.mfc, by rw [e]; exact hs.out0⟩
   · exact Or.inr ⟨c1, hcore c1 hp.core, (hp.live.of_eq (by rw [e]) (by rw [e]) (by rw [e])), by rw [e]; exact hp.st,
       hp.c1, hmfc c1 hp.mfc⟩
 
-theorem decLoop_open (win : Nat) (skip : Nat → Bool) (ns : Bool) (hw : nMfc + 2 * win + 1 ≤ livebuf) :
+theorem decLoop_open (win : Nat) (skip : Nat → Bool) (ns : Bool) (hw : 3 * win + 1 ≤ livebuf) :
     ∀ (fuel : Nat) (s : St) (rs : List FeResp), Open win s → s.cmnFrames + offered rs ≤ cmnWinHwm → rs.length < fuel →
     Open win (decLoop true win skip ns fuel s rs) ∧
       (decLoop true win skip ns fuel s rs).cmnFrames ≤ s.cmnFrames + offered rs := by
@@ -162,7 +162,7 @@ theorem Open.ext {win} {s s' : St} (h : Open win s) (hext : FbExt s s') : Open w
     rw [hg k (by have := hc.room; have := hc.fbLen; omega)]
     exact hc.feats k hk
   have hmfc : ∀ c, MfcInv s c → MfcInv s' c := by
-    intro c hm; rw [e]; exact ⟨hm.len, hm.alloc, hm.out, hm.cnt, hm.next, hm.frames⟩
+    intro c hm; rw [e]; exact ⟨hm.len, hm.out, hm.cnt, hm.next, hm.frames⟩
   obtain ⟨c0, hc0, _⟩ := h.core
   have hlen : s.outputFrame < s.featBuf.length := by have := hc0.room; have := hc0.fbLen; have := hc0.cnt; omega
   refine ⟨by rw [e]; exact h.mfc0, ?_, ?_, ?_⟩
@@ -209,7 +209,7 @@ theorem Open.state {win} {s : St} (h : Open win s) : s.state = .started ∨ s.st
 
 /-- `decoder_process_int16/float32` on an open utterance -/
 theorem decProcess_open (win : Nat) (skip : Nat → Bool) (s : St) (ns : Bool) (rs : List FeResp) (h : Open win s)
-    (hb : s.cmnFrames + offered rs ≤ cmnWinHwm) (hw : nMfc + 2 * win + 1 ≤ livebuf) :
+    (hb : s.cmnFrames + offered rs ≤ cmnWinHwm) (hw : 3 * win + 1 ≤ livebuf) :
     Open win (decProcess true win skip s ns rs) ∧ (decProcess true win skip s ns rs).cmnFrames ≤ s.cmnFrames + offered rs := by
   have hst : ¬ s.state = .idle := by
     rcases h.state with e | e <;> rw [e] <;> decide
@@ -241,7 +241,7 @@ theorem align_open {win} {s : St} (h : Open win s) (upto : Nat) :
     intro c' hc'; rw [e]
     exact ⟨hc'.nofault, hc'.grow, hc'.cepLen, hc'.cur, hc'.fbLen, hc'.outIdx, hc'.cnt, hc'.room, hc'.feats, hc'.moved⟩
   have hmfc : ∀ c', MfcInv s c' → MfcInv (alignPass s upto) c' := by
-    intro c' hm; rw [e]; exact ⟨hm.len, hm.alloc, hm.out, hm.cnt, hm.next, hm.frames⟩
+    intro c' hm; rw [e]; exact ⟨hm.len, hm.out, hm.cnt, hm.next, hm.frames⟩
   refine ⟨⟨by rw [e]; exact h.mfc0, ?_, ?_, ?_⟩, by rw [e]⟩
   · rcases h.inv with hs | ⟨c1, hp⟩
     · exact Or.inl ⟨hcore 0 hs.core, by rw [e]; exact hs.st, hmfc 0 hs.mfc, by rw [e]; exact hs.out0⟩
@@ -257,7 +257,7 @@ theorem align_open {win} {s : St} (h : Open win s) (upto : Nat) :
     · exact ⟨min upto s.outputFrame, by rw [e]; exact Nat.min_le_right _ _, by rw [hl, e]⟩
 
 theorem step_open (win : Nat) (skip : Nat → Bool) (s : St) (op : Op) (h : Open win s) (hnf : op.isFull = false)
-    (hb : s.cmnFrames + offeredOps [op] ≤ cmnWinHwm) (hw : nMfc + 2 * win + 1 ≤ livebuf) :
+    (hb : s.cmnFrames + offeredOps [op] ≤ cmnWinHwm) (hw : 3 * win + 1 ≤ livebuf) :
     Open win (step true win skip s op) ∧ (step true win skip s op).cmnFrames ≤ s.cmnFrames + offeredOps [op] := by
   cases op with
   | process ns rs =>
@@ -278,7 +278,7 @@ theorem step_open (win : Nat) (skip : Nat → Bool) (s : St) (op : Op) (h : Open
 theorem offeredOps_cons (op : Op) (ops : List Op) : offeredOps (op :: ops) = offeredOps [op] + offeredOps ops := by
   cases op <;> simp [offeredOps]
 
-theorem runOps_open (win : Nat) (skip : Nat → Bool) (hw : nMfc + 2 * win + 1 ≤ livebuf) :
+theorem runOps_open (win : Nat) (skip : Nat → Bool) (hw : 3 * win + 1 ≤ livebuf) :
     ∀ (ops : List Op) (s : St), Open win s → (∀ op, op ∈ ops → op.isFull = false) →
     s.cmnFrames + offeredOps ops ≤ cmnWinHwm →
     Open win (runOps true win skip s ops) ∧ (runOps true win skip s ops).cmnFrames ≤ s.cmnFrames + offeredOps ops := by
@@ -308,21 +308,20 @@ theorem endFe_spec (s : St) (c : Nat) (tail : Bool) (hm : MfcInv s c) (h0 : s.nM
     ∃ mb, endFe s tail = ({ s with mfcBuf := mb, nextId := c + (if tail then 1 else 0), nMfcFrame := if tail then 1 else 0 },
         if tail then 1 else 0) ∧
       MfcInv { s with mfcBuf := mb, nextId := c + (if tail then 1 else 0), nMfcFrame := if tail then 1 else 0 } c := by
-  have hal := hm.alloc
   have ho := hm.out
   have hnext := hm.next
-  have hk : min (if tail then 1 else 0) (nMfc - (s.mfcOutidx + 0) % nMfc) = if tail then 1 else 0 := by
+  have hk : min (if tail then 1 else 0) (s.nMfcAlloc - (s.mfcOutidx + 0) % s.nMfcAlloc) = if tail then 1 else 0 := by
     rw [Nat.add_zero, Nat.mod_eq_of_lt ho]; cases tail <;> simp <;> omega
-  obtain ⟨mb, e, hm'⟩ := hm.feWrite (if tail then 1 else 0) ((s.mfcOutidx + 0) % nMfc) (by rw [h0])
+  obtain ⟨mb, e, hm'⟩ := hm.feWrite (if tail then 1 else 0) ((s.mfcOutidx + 0) % s.nMfcAlloc) (by rw [h0])
     (by rw [Nat.add_zero, Nat.mod_eq_of_lt ho]; cases tail <;> simp <;> omega)
-    (by rw [h0]; cases tail <;> simp [nMfc])
+    (by rw [h0]; cases tail <;> simp <;> omega)
   rw [h0, Nat.zero_add] at e hm'
   rw [h0, Nat.add_zero] at hnext
   rw [hnext] at e hm'
   refine ⟨mb, ?_, hm'⟩
-  have hlt : (0 : Nat) < nMfc := by decide
-  simp only [endFe, h0, hal, hlt, if_true, hk]
-  rw [e]; simp only [hal]
+  have hlt : (0 : Nat) < s.nMfcAlloc := by omega
+  simp only [endFe, h0, hlt, if_true, hk]
+  rw [e]
 
 /-- the search of the remaining frames after the flush -/
 theorem closed_of_end {win} {s : St} (hc : EndCore win s s.nextId) (hst : s.state = .ended) (hs : SearchedOK s)
@@ -340,7 +339,7 @@ theorem closed_of_end {win} {s : St} (hc : EndCore win s s.nextId) (hst : s.stat
 
 theorem acmodEndUtt_closed (win : Nat) (skip : Nat → Bool) (s : St) (tail : Bool) (h : Open win s)
     (hfe : tail = true ∨ s.nextId = 0) (hb : s.cmnFrames + (if tail then 1 else 0) ≤ cmnWinHwm)
-    (hw : nMfc + 3 * win + 1 ≤ livebuf) :
+    (hw : 3 * win + 2 ≤ livebuf) :
     let s' := acmodEndUtt true win skip s tail
     EndCore win s' s'.nextId ∧ s'.state = .ended ∧ SearchedOK s' ∧ AlignedOK s' := by
   intro s'
@@ -365,7 +364,7 @@ theorem acmodEndUtt_closed (win : Nat) (skip : Nat → Bool) (s : St) (tail : Bo
       simp only [if_true] at e hm hb
       -- the frame is first consumed as the start of the utterance …
       have hsi : SInv win { s with state := .started, mfcBuf := mb, nextId := 0 + 1, nMfcFrame := 1 } :=
-        ⟨(hs.core.setFe mb (0 + 1) 1).setState _, rfl, ⟨hm.len, hm.alloc, hm.out, hm.cnt, hm.next, hm.frames⟩, hs.out0⟩
+        ⟨(hs.core.setFe mb (0 + 1) 1).setState _, rfl, ⟨hm.len, hm.out, hm.cnt, hm.next, hm.frames⟩, hs.out0⟩
       obtain ⟨p1, p2, p3⟩ := processMfcbuf_start win skip _ hsi (by simp) (by simp only []; omega) (by omega)
       generalize hA : processMfcbuf true win skip { s with state := .started, mfcBuf := mb, nextId := 0 + 1, nMfcFrame := 1 } = A
         at p1 p2 p3
@@ -380,7 +379,7 @@ theorem acmodEndUtt_closed (win : Nat) (skip : Nat → Bool) (s : St) (tail : Bo
       have hBcf : B.cmnFrames = A.st.cmnFrames := by rw [hB]
       simp only [] at hBk
       obtain ⟨q1, q2, q3, q4, q5⟩ := processMfcbuf_end win skip B 1 hBc hBl (Nat.le_refl _) hBs hBm
-        (by rw [hBn]; have := hBm.out; omega) (by rw [hBn, hBcf]; omega) hw
+        (by rw [hBn]; have := hBm.out; omega) (by rw [hBn, hBcf]; omega) (by rw [hBn]; omega)
       rw [hBn] at q1 q5
       have hs' : s' = (processMfcbuf true win skip B).st := by
         simp only [s', acmodEndUtt, e, hws, Bool.true_and, if_true, endHead]
@@ -407,8 +406,8 @@ theorem acmodEndUtt_closed (win : Nat) (skip : Nat → Bool) (s : St) (tail : Bo
     obtain ⟨q1, q2, q3, q4, q5⟩ := processMfcbuf_end win skip
       { s with state := .ended, mfcBuf := mb, nextId := c + 1, nMfcFrame := 1 } c
       ((hp.core.setFe mb (c + 1) 1).setState _) (hp.live.of_eq rfl rfl rfl) hc1 rfl
-      ⟨hm.len, hm.alloc, hm.out, hm.cnt, hm.next, hm.frames⟩ (by have := hm.out; simp only [] at this ⊢; omega)
-      (by simp only []; omega) hw
+      ⟨hm.len, hm.out, hm.cnt, hm.next, hm.frames⟩ (by have := hm.out; simp only [] at this ⊢; omega)
+      (by simp only []; omega) (by simp only []; omega)
     simp only [] at q1 q2 q3 q4 q5
     have hs' : s' = (processMfcbuf true win skip { s with state := .ended, mfcBuf := mb, nextId := c + 1, nMfcFrame := 1 }).st := by
       simp only [s', acmodEndUtt, e, hws, Bool.and_false, if_false, Bool.false_eq_true]
@@ -420,7 +419,7 @@ theorem acmodEndUtt_closed (win : Nat) (skip : Nat → Bool) (s : St) (tail : Bo
 
 theorem decEnd_closed (win : Nat) (skip : Nat → Bool) (s : St) (tail : Bool) (h : Open win s)
     (hfe : tail = true ∨ s.nextId = 0) (hb : s.cmnFrames + (if tail then 1 else 0) ≤ cmnWinHwm)
-    (hw : nMfc + 3 * win + 1 ≤ livebuf) : Closed win (decEnd true win skip s tail) := by
+    (hw : 3 * win + 2 ≤ livebuf) : Closed win (decEnd true win skip s tail) := by
   have hst : ¬ (s.state = .ended ∨ s.state = .idle) := by
     rcases h.state with e | e <;> rw [e] <;> decide
   obtain ⟨a1, a2, a3, a4⟩ := acmodEndUtt_closed win skip s tail h hfe hb hw
